@@ -174,6 +174,67 @@ func (g *tgen) plain(depth int) ptree {
 		}
 		g.n("plain:object")
 		return ptree{mk(&js_ast.EObject{Properties: ps}), "(EObject " + clist(cs) + ")", "({" + strings.Join(ss, ", ") + "})"}
+	case k >= 94 && k < 96: // class expression: heritage, computed / literal keys, static and instance fields, static blocks
+		c := js_ast.Class{UseDefineForClassFields: true}
+		extC, extS := "None", ""
+		switch r.Intn(4) { // (esbuild's concession: the heritage must be a constructor or null, so only those)
+		case 0:
+			c.ExtendsOrNil, extC, extS = mk(&js_ast.EFunction{}), "(Some EFunction)", " extends (function () {})"
+		case 1:
+			c.ExtendsOrNil, extC, extS = mk(js_ast.ENullShared), "(Some ENull)", " extends null"
+		}
+		var cs, ss []string
+		for q := r.Range(1, 3); q > 0; q-- {
+			switch r.Intn(3) {
+			case 0: // static block
+				var stc, sts []string
+				var stmts []js_ast.Stmt
+				for w := r.Range(1, 2); w > 0; w-- {
+					if r.Bool() {
+						x := g.plain(d)
+						stmts = append(stmts, js_ast.Stmt{Data: &js_ast.SExpr{Value: x.e}})
+						stc = append(stc, "(SExpr "+x.coq+" false)")
+						sts = append(sts, "("+x.src+");")
+					} else {
+						dv, iv := g.plain(d), g.plain(d)
+						g.size++
+						nm := fmt.Sprintf("q%d", g.size)
+						stmts = append(stmts, js_ast.Stmt{Data: &js_ast.SLocal{Decls: []js_ast.Decl{{
+							Binding:    js_ast.Binding{Data: &js_ast.BArray{Items: []js_ast.ArrayBinding{{Binding: js_ast.Binding{Data: &js_ast.BIdentifier{}}, DefaultValueOrNil: dv.e}}}},
+							ValueOrNil: mk(&js_ast.EArray{Items: []js_ast.Expr{iv.e}})}}}})
+						stc = append(stc, "(SLocal LVar [DDecl (BArray [BItem BIdent (Some "+dv.coq+")]) (Some (EArray ["+iv.coq+"]))])")
+						sts = append(sts, "var ["+nm+" = ("+dv.src+")] = [("+iv.src+")];")
+					}
+				}
+				c.Properties = append(c.Properties, js_ast.Property{Kind: js_ast.PropertyClassStaticBlock, ClassStaticBlock: &js_ast.ClassStaticBlock{Block: js_ast.SBlock{Stmts: stmts}}})
+				cs = append(cs, "(PProp KStaticBlock false false false false ENull None None "+clist(stc)+")")
+				ss = append(ss, "static { "+strings.Join(sts, " ")+" }")
+			default: // field
+				static, computed := r.Bool(), r.Chance(40)
+				v := g.plain(d)
+				p := js_ast.Property{Kind: js_ast.PropertyField, InitializerOrNil: v.e}
+				keyC, keyS := "", ""
+				if computed {
+					key := g.plain(d)
+					p.Flags |= js_ast.PropertyIsComputed
+					p.Key, keyC, keyS = key.e, key.coq, "[("+key.src+")]"
+				} else {
+					g.size++
+					ke, kc := strLit(fmt.Sprintf("f%d", g.size))
+					p.Key, keyC, keyS = ke, kc, fmt.Sprintf("f%d", g.size)
+				}
+				st := ""
+				if static {
+					p.Flags |= js_ast.PropertyIsStatic
+					st = "static "
+				}
+				c.Properties = append(c.Properties, p)
+				cs = append(cs, fmt.Sprintf("(PProp KField %s %s false false %s None (Some %s) [])", cb(computed), cb(static), keyC, v.coq))
+				ss = append(ss, st+keyS+" = ("+v.src+");")
+			}
+		}
+		g.n("plain:class")
+		return ptree{mk(&js_ast.EClass{Class: c}), "(EClass (CClass false " + extC + " " + clist(cs) + " true))", "(class" + extS + " { " + strings.Join(ss, " ") + " })"}
 	case k < 97:
 		t := g.plain(d)
 		if r.Bool() {
